@@ -157,6 +157,15 @@ impl<'t, F: Mv> MvSession<'t, F> {
         out.emit(json!({"ev":"add_vars","n":n,"l2v":l2v}));
         MvSession { mref, slots: Vec::new(), out, n, dead: false }
     }
+    /// like `new` for a manager created by the caller (worker threads, capacities)
+    pub fn with_manager(out: &'t mut TraceOut, mref: F::ManagerRef, cache: usize, n: u32, tag: &str) -> Self {
+        out.begin_history();
+        out.emit(json!({"ev":"reset","kind":F::KIND,"cache":cache,"tag":tag}));
+        mref.with_manager_exclusive(|m| m.add_vars(n));
+        let l2v: Vec<u32> = mref.with_manager_shared(|m| (0..n).map(|l| m.level_to_var(l)).collect());
+        out.emit(json!({"ev":"add_vars","n":n,"l2v":l2v}));
+        MvSession { mref, slots: Vec::new(), out, n, dead: false }
+    }
     pub fn get(&self, s: usize) -> &F {
         self.slots[s].as_ref().unwrap()
     }
@@ -686,4 +695,185 @@ pub fn mtbdd(args: &Args) {
     }
     out.finish();
     write_summary(&dir, "mv-mtbdd", &out, json!({"rows":cases,"nontrivial":cases}));
+}
+
+/// C07 for a kind with a dynamic terminal manager: application threads apply
+/// arithmetic operators to shared MTBDD operands (many results are constants
+/// referenced by nothing else) and drop the results at once, while a collector
+/// thread calls gc() all the time.  Every result is projected by the thread
+/// that computed it; the records are emitted in the order of a completion
+/// stamp (operands are live throughout, so every order is a sequential
+/// explanation) and validated against the pointwise lifting by TraceMV.
+pub fn mtconc(args: &Args) {
+    use std::sync::atomic::{AtomicBool, AtomicU64, Ordering::Relaxed, Ordering::SeqCst};
+    let dir = args.get("out", "/verif/out/tmp");
+    let seed = args.num("seed", 1);
+    let thorough = args.get("tier", "quick") == "thorough";
+    let mut rng = Rng::new(seed ^ 0x7c07);
+    let mut out = TraceOut::new(&dir, "mv-mtconc", 4000);
+    let mut cases = 0u64;
+    let mut collections = 0u64;
+    let runs = if thorough { 40 } else { 8 };
+    for run in 0..runs {
+        let n = 2 + rng.below(2) as u32;
+        let workers = [2u32, 4, 8][rng.below(3)];
+        let cache = [1usize, 64, 1024][rng.below(3)];
+        oxidd_core::util::verif::PERTURB.store([0u32, 3, 8][run % 3], Relaxed);
+        let mref = oxidd::mtbdd::new_manager(1 << 14, 1 << 12, cache, workers);
+        let mut s: MvSession<MT> = MvSession::with_manager(&mut out, mref, cache, n, "conc");
+        let vars: Vec<usize> = (0..n).filter_map(|v| mt_var(&mut s, v)).collect();
+        if vars.len() != n as usize {
+            continue;
+        }
+        // operand pairs (f_i, g_i = K_i - f_i): f_i + g_i is the constant K_i, which
+        // no live function contains
+        let pairs = if thorough { 40 } else { 24 };
+        let mut ops: Vec<usize> = Vec::new();
+        for i in 0..pairs {
+            let k = 1000 * (run as i64 + 1) + i as i64;
+            let vals: Vec<I64> = (0..(1usize << n)).map(|_| I64::Num(1 + rng.below(400) as i64)).collect();
+            let Some(f) = mt_build(&mut s, &vals, &vars, n as usize) else { break };
+            let Some(kc) = mt_const(&mut s, I64::Num(k)) else { break };
+            let g = mt_arith(&mut s, "sub", kc, f);
+            s.drop_h(kc);
+            let Some(g) = g else { break };
+            ops.push(f);
+            ops.push(g);
+        }
+        if s.dead || ops.len() < 4 {
+            continue;
+        }
+        s.gc();
+        // ---- concurrent phase ----
+        s.out.emit(json!({"ev":"begin","what":"mtconc"}));
+        let handles: Vec<MT> = ops.iter().map(|&h| s.get(h).clone()).collect();
+        let values: Vec<Vec<I64>> = handles.iter().map(|f| mt_values(f, n)).collect();
+        let stamp = AtomicU64::new(0);
+        let stop = AtomicBool::new(false);
+        let nthreads = 2 + rng.below(3);
+        // identical records (same call, same projected result) are emitted once
+        // with a count: the specification's verdict depends on nothing else
+        let iters = if thorough { 20000 } else { 3000 };
+        let seeds: Vec<u64> = (0..nthreads).map(|_| rng.next()).collect();
+        let mref2 = s.mref.clone();
+        let mut records: Vec<(u64, Value)> = Vec::new();
+        let mut gcs = 0u64;
+        std::thread::scope(|sc| {
+            let mut hs = Vec::new();
+            for t in 0..nthreads {
+                let (handles, values, ops, stamp) = (&handles, &values, &ops, &stamp);
+                let tseed = seeds[t];
+                hs.push(sc.spawn(move || {
+                    let mut rng = Rng::new(tseed);
+                    let mut recs: Vec<(u64, Value)> = Vec::new();
+                    let mut seen_recs: HashMap<String, usize> = HashMap::new();
+                    for _ in 0..iters {
+                        let i = rng.below(handles.len() / 2);
+                        // mostly the pair whose sum is an otherwise unreferenced constant
+                        let (a, b, op) = match rng.below(10) {
+                            0..=5 => (2 * i, 2 * i + 1, "add"),
+                            6 => (2 * i + 1, 2 * i, "add"),
+                            7 => (2 * i, rng.below(handles.len()), "add"),
+                            8 => (2 * i, 2 * i + 1, ["min", "max"][rng.below(2)]),
+                            _ => (rng.below(handles.len()), rng.below(handles.len()), ["sub", "mul"][rng.below(2)]),
+                        };
+                        let mut scv = Vec::new();
+                        let mut seen = HashSet::new();
+                        for (x, y) in values[a].iter().zip(values[b].iter()) {
+                            if let Ok(Some(z)) = catch(|| scalar(op, x, y)) {
+                                if seen.insert(format!("{x:?}|{y:?}")) {
+                                    scv.push(json!([i64_json(x), i64_json(y), i64_json(&z)]));
+                                }
+                            }
+                        }
+                        let r = catch(|| mt_bin(op, &handles[a], &handles[b]));
+                        let mut ev = json!({"ev":"mop","op":op,"a":[ops[a], ops[b]],"sc":scv,"thr":t});
+                        match r {
+                            Ok(Ok(f)) => {
+                                let (e, g, _) = f.graph();
+                                ev["e"] = e;
+                                ev["g"] = g;
+                                ev["vt"] = Value::Array(catch(|| f.values(n)).unwrap_or_else(|p| vec![json!({"panic": p})]));
+                                ev["nc"] = json!(f.node_count());
+                                drop(f);
+                                let key = ev.to_string();
+                                if let Some(&i) = seen_recs.get(&key) {
+                                    let c = recs[i].1["count"].as_u64().unwrap_or(1);
+                                    recs[i].1["count"] = json!(c + 1);
+                                } else {
+                                    seen_recs.insert(key, recs.len());
+                                    let st = stamp.fetch_add(1, SeqCst);
+                                    recs.push((st, ev));
+                                }
+                            }
+                            Ok(Err(_)) => {
+                                ev["res"] = json!({"oom": true});
+                                recs.push((stamp.fetch_add(1, SeqCst), ev));
+                            }
+                            Err(p) => {
+                                ev["res"] = json!({ "panic": p });
+                                recs.push((stamp.fetch_add(1, SeqCst), ev));
+                                break;
+                            }
+                        }
+                    }
+                    recs
+                }));
+            }
+            let stop_ref = &stop;
+            let gc_handle = sc.spawn(move || {
+                let mut k = 0u64;
+                let mut x = 0x9e3779b97f4a7c15u64 ^ seed;
+                while !stop_ref.load(Relaxed) {
+                    mref2.with_manager_shared(|m| m.gc());
+                    k += 1;
+                    x ^= x << 13;
+                    x ^= x >> 7;
+                    x ^= x << 17;
+                    std::thread::sleep(std::time::Duration::from_micros(20 + x % 200));
+                }
+                k
+            });
+            let mut panicked = false;
+            for h in hs {
+                match h.join() {
+                    Ok(r) => records.extend(r),
+                    Err(_) => panicked = true,
+                }
+            }
+            stop.store(true, Relaxed);
+            gcs = gc_handle.join().unwrap_or(0);
+            if panicked {
+                records.push((u64::MAX, json!({"ev":"abort","what":"thread panicked"})));
+            }
+        });
+        collections += gcs;
+        records.sort_by_key(|r| r.0);
+        for (_, mut ev) in records {
+            cases += 1;
+            if ev["ev"] == "mop" && ev.get("res").is_none() {
+                s.slots.push(None);
+                let h = s.slots.len() - 1;
+                ev["h"] = json!(h);
+                s.out.emit(ev);
+                s.out.emit(json!({"ev":"mdrop","a":h}));
+            } else {
+                s.out.emit(ev);
+            }
+        }
+        drop(handles);
+        // ---- quiescent again: every operand unchanged, exact collection ----
+        for &a in &ops {
+            let f = s.get(a).clone();
+            let (e, g, _) = f.graph();
+            let vt = Value::Array(catch(|| f.values(n)).unwrap_or_else(|p| vec![json!({"panic": p})]));
+            s.out.emit(json!({"ev":"mcheck","a":a,"e":e,"g":g,"vt":vt,"nc":f.node_count()}));
+        }
+        s.gc();
+        s.obs();
+        s.finish();
+    }
+    oxidd_core::util::verif::PERTURB.store(0, Relaxed);
+    out.finish();
+    write_summary(&dir, "mv-mtconc", &out, json!({"rows":cases,"nontrivial":cases,"collections":collections}));
 }
